@@ -61,8 +61,8 @@ OPERATOR_MAP: dict[str, OperatorFunction] = {
     ">": lambda x, y: x > y,
     "<=": lambda x, y: x <= y,
     ">=": lambda x, y: x >= y,
-    "&&": lambda x, y: x and y,
-    "||": lambda x, y: x or y,
+    "&&": lambda x, y: bool(x and y),
+    "||": lambda x, y: bool(x or y),
     "^": lambda x, y: x ^ y,
     "&": lambda x, y: x & y,
     "|": lambda x, y: x | y,
